@@ -7,6 +7,9 @@ require (
 	github.com/angelsolaorbaiceta/inkgeom v0.1.5
 )
 
-require github.com/angelsolaorbaiceta/inkmath v0.2.6 // indirect
+require (
+	github.com/ajstarks/svgo v0.0.0-20211024235047-1546f124cd8b // indirect
+	github.com/angelsolaorbaiceta/inkmath v0.2.6 // indirect
+)
 
 replace github.com/angelsolaorbaiceta/inkfem => /repo
